@@ -72,6 +72,17 @@ Corollary hosvd_keep_cols_scale : forall (A : Type) (pi : list A) (eig : list R)
   option_map (fun r => keep_cols r pi) (auto_rank 0 Rplus Rltb eig t).
 Proof. intros A pi eig t k Hk. now rewrite hosvd_rank_scale. Qed.
 
+(* in the terms of hosvd.py: data scaled by c > 0 => Gram eigenvalues scaled by c^2 (gram_den_scale below), normxsqr scaled
+   by c^2 (sumsq_scale below), eigsumthresh = tol^2 * normxsqr / d scaled by c^2: same automatic rank *)
+Corollary hosvd_rank_scale_data : forall (eig : list R) (tol normxsqr d c : R), 0 < c ->
+  auto_rank 0 Rplus Rltb (map (Rmult (c * c)) eig) (tol * tol * (c * c * normxsqr) / d) =
+  auto_rank 0 Rplus Rltb eig (tol * tol * normxsqr / d).
+Proof.
+  intros eig tol nx d c Hc.
+  replace (tol * tol * (c * c * nx) / d) with ((c * c) * (tol * tol * nx / d)) by (unfold Rdiv; ring).
+  apply hosvd_rank_scale. nra.
+Qed.
+
 (* data scaled by c = 3: eigenvalues and threshold scale by k = 9; rank 2 both times (cf. rank_choice_example) *)
 Example hosvd_rank_scale_example :
   auto_rank 0 Rplus Rltb (map (Rmult 9) [9; 4; 1; 0]) (9 * 2) = Some 2%nat /\
@@ -115,6 +126,15 @@ Proof.
   apply sum_over_ext. intros i _. ring.
 Qed.
 
+(* ||c X||^2 = c^2 ||X||^2 on the data list (normxsqr of hosvd.py, normX^2 of tucker_als.py) *)
+Theorem sumsq_scale : forall (c : V) (l : list V),
+  sumsq v0 vadd vmul (map (vmul c) l) = vmul (vmul c c) (sumsq v0 vadd vmul l).
+Proof.
+  intros c l. unfold sumsq. rewrite (sum_over_map V v0 vadd).
+  rewrite <- (sum_over_scale_l V v0 v1 vadd vmul vsub vopp Vring).
+  apply sum_over_ext. intros x _. ring.
+Qed.
+
 (* Tucker model: scaling the core by c scales the full tensor by c (same factors) *)
 Theorem den_t_scale_core : forall (c : V) (core core' : dense V) (Us : list (list (list V))),
   dshape core' = dshape core ->
@@ -140,3 +160,379 @@ Proof.
   - rewrite !den_tabulate_out by exact Hin. ring.
 Qed.
 End Linear.
+
+(* non-vacuity over Z: X(i) = 1 + i0 + 2 i1 on a 2 x 2 array, M = [[1;2];[3;4]], c = 3, entry (1,0) *)
+Example ttm_gram_scale_example :
+  let X := (fun i : idx => 1 + Z.of_nat (nth 0 i 0%nat) + 2 * Z.of_nat (nth 1 i 0%nat))%Z in
+  let M := [[1; 2]; [3; 4]]%Z in
+  (ttm_den 0%Z Z.add Z.mul X 2 0 M [1; 0]%nat = 11 /\
+   ttm_den 0%Z Z.add Z.mul (fun i => 3 * X i) 2 0 M [1; 0]%nat = 3 * 11 /\
+   gram_den 0%Z Z.add Z.mul [2; 2]%nat X 0 0 1 = 14 /\
+   gram_den 0%Z Z.add Z.mul [2; 2]%nat (fun i => 3 * X i) 0 0 1 = 3 * 3 * 14)%Z.
+Proof. vm_compute. repeat split. Qed.
+
+(* non-vacuity of den_t_scale_core over Z: 2 x 1 core [5;7] vs [15;21], U1 = [[1;2];[3;4]], U2 = [[1];[1]], entry (1,0) *)
+Example den_t_scale_core_example :
+  let Us := [[[1; 2]; [3; 4]]; [[1]; [1]]]%Z in
+  (den_t 0 1 Z.add Z.mul (mkT (mkDense [2; 1]%nat [5; 7]) Us) [1; 0]%nat = 43 /\
+   den_t 0 1 Z.add Z.mul (mkT (mkDense [2; 1]%nat [15; 21]) Us) [1; 0]%nat = 3 * 43)%Z.
+Proof. vm_compute. split; reflexivity. Qed.
+
+(* ======================================================================================== *)
+(* C. algorithm-level equivariance                                                            *)
+(* ======================================================================================== *)
+
+(* the fit formula of tucker_als.py: fit = 1 - sqrt(|normX^2 - ||core||^2|) / normX, with nx = normX^2, nc = ||core||^2 *)
+Theorem tucker_fit_scale : forall (c nx nc nx' nc' : R), 0 < c -> 0 < nx ->
+  nx' = c * c * nx -> nc' = c * c * nc ->
+  1 - sqrt (Rabs (nx' - nc')) / sqrt nx' = 1 - sqrt (Rabs (nx - nc)) / sqrt nx.
+Proof.
+  intros c nx nc nx' nc' Hc Hnx -> ->.
+  replace (c * c * nx - c * c * nc) with ((c * c) * (nx - nc)) by ring.
+  assert (Hcc : 0 <= c * c) by nra.
+  rewrite Rabs_mult, (Rabs_pos_eq (c * c)) by exact Hcc.
+  rewrite (sqrt_mult (c * c) (Rabs (nx - nc))) by (auto using Rabs_pos).
+  rewrite (sqrt_mult (c * c) nx) by lra.
+  rewrite sqrt_square by lra.
+  assert (Hs : 0 < sqrt nx) by (apply sqrt_lt_R0; lra).
+  field. split; lra.
+Qed.
+
+Example tucker_fit_scale_example :
+  1 - sqrt (Rabs (2 * 2 * 14 - 2 * 2 * 5)) / sqrt (2 * 2 * 14) = 1 - sqrt (Rabs (14 - 5)) / sqrt 14.
+Proof. apply (tucker_fit_scale 2 14 5); lra. Qed.
+
+Section Equivariance.
+Variable E : Type.
+Variables (sub : E -> E -> E) (inner : E -> E -> R) (smul : R -> E -> E).
+Hypothesis inner_sym : forall a b, inner a b = inner b a.
+Hypothesis inner_sub : forall a b c, inner (sub a b) c = inner a c - inner b c.
+Hypothesis inner_pos : forall a, 0 <= inner a a.
+Hypothesis inner_smul : forall c a b, inner (smul c a) b = c * inner a b.
+Hypothesis sub_smul : forall c a b, sub (smul c a) (smul c b) = smul c (sub a b).
+
+Notation nrm := (nrm2 E inner).
+
+Lemma nrm2_smul c a : nrm (smul c a) = c * c * nrm a.
+Proof. unfold nrm2. rewrite inner_smul, (inner_sym a (smul c a)), inner_smul. ring. Qed.
+
+(* relative error ||x - r||^2 / ||x||^2, cross-multiplied *)
+Lemma relerr_scale c x r :
+  nrm (sub (smul c x) (smul c r)) = c * c * nrm (sub x r) /\
+  nrm (sub (smul c x) (smul c r)) * nrm x = nrm (sub x r) * nrm (smul c x).
+Proof. rewrite sub_smul, !nrm2_smul. split; ring. Qed.
+
+(* ---------------------------------------------------------------------------------------- *)
+(* C1. hosvd                                                                                  *)
+(* ---------------------------------------------------------------------------------------- *)
+(* choose k y = the projector U_k U_k^T in mode k computed from the current tensor y (Gram matrix of the mode-k
+   unfolding, eigh, argsort, rank rule / user rank, leading eigenvectors).  Contract: the choice does not change
+   when y is scaled by c > 0 (Gram scales by c^2: gram_den_scale; same eigenvectors; same rank: hosvd_rank_scale
+   with k = c^2), and every chosen projector is positively homogeneous *)
+Variable choose : nat -> E -> (E -> E).
+Hypothesis choose_scale : forall n c x, 0 < c -> choose n (smul c x) = choose n x.
+Hypothesis choose_homog : forall n y c x, 0 < c -> choose n y (smul c x) = smul c (choose n y x).
+
+(* sequential: the next projector is chosen from the already shrunk tensor *)
+Fixpoint hosvd_seq (modes : list nat) (x : E) : list (E -> E) * E :=
+  match modes with
+  | [] => ([], x)
+  | n :: ms => let P := choose n x in let r := hosvd_seq ms (P x) in (P :: fst r, snd r)
+  end.
+(* non-sequential: every projector is chosen from the original tensor x0; y = running product *)
+Fixpoint hosvd_nonseq_from (x0 : E) (modes : list nat) (y : E) : list (E -> E) * E :=
+  match modes with
+  | [] => ([], y)
+  | n :: ms => let P := choose n x0 in let r := hosvd_nonseq_from x0 ms (P y) in (P :: fst r, snd r)
+  end.
+Definition hosvd_nonseq (modes : list nat) (x : E) : list (E -> E) * E := hosvd_nonseq_from x modes x.
+(* hosvd(..., sequential=...) *)
+Definition hosvd (sequential : bool) (modes : list nat) (x : E) : list (E -> E) * E :=
+  if sequential then hosvd_seq modes x else hosvd_nonseq modes x.
+
+(* the final vector is the product of the chosen projectors applied to x (ties in with projector_bound) *)
+Lemma hosvd_seq_applyPs modes : forall x, snd (hosvd_seq modes x) = applyPs E (fst (hosvd_seq modes x)) x.
+Proof. induction modes as [|n ms IH]; intros x; cbn [hosvd_seq fst snd applyPs]; [reflexivity|apply IH]. Qed.
+Lemma hosvd_nonseq_from_applyPs x0 modes : forall y,
+  snd (hosvd_nonseq_from x0 modes y) = applyPs E (fst (hosvd_nonseq_from x0 modes y)) y.
+Proof. induction modes as [|n ms IH]; intros y; cbn [hosvd_nonseq_from fst snd applyPs]; [reflexivity|apply IH]. Qed.
+Lemma hosvd_nonseq_from_fst x0 modes : forall y, fst (hosvd_nonseq_from x0 modes y) = map (fun n => choose n x0) modes.
+Proof. induction modes as [|n ms IH]; intros y; cbn [hosvd_nonseq_from fst map]; [reflexivity|f_equal; apply IH]. Qed.
+Theorem hosvd_applyPs : forall sequential modes x,
+  snd (hosvd sequential modes x) = applyPs E (fst (hosvd sequential modes x)) x.
+Proof. intros [|] modes x; [apply hosvd_seq_applyPs|apply hosvd_nonseq_from_applyPs]. Qed.
+
+Lemma hosvd_seq_scale modes : forall c x, 0 < c ->
+  hosvd_seq modes (smul c x) = (fst (hosvd_seq modes x), smul c (snd (hosvd_seq modes x))).
+Proof.
+  induction modes as [|n ms IH]; intros c x Hc; cbn [hosvd_seq fst snd]; [reflexivity|].
+  rewrite choose_scale, choose_homog, IH by exact Hc. reflexivity.
+Qed.
+
+Lemma hosvd_nonseq_from_scale modes : forall c x0 y, 0 < c ->
+  hosvd_nonseq_from (smul c x0) modes (smul c y) =
+  (fst (hosvd_nonseq_from x0 modes y), smul c (snd (hosvd_nonseq_from x0 modes y))).
+Proof.
+  induction modes as [|n ms IH]; intros c x0 y Hc; cbn [hosvd_nonseq_from fst snd]; [reflexivity|].
+  rewrite choose_scale, choose_homog, IH by exact Hc. reflexivity.
+Qed.
+
+(* scaling the data by c > 0: the same projectors (factor matrices) are chosen in every mode, and the resulting
+   approximation is c times the approximation of the unscaled data — for both values of [sequential] *)
+Theorem hosvd_scale : forall (sequential : bool) (modes : list nat) (c : R) (x : E), 0 < c ->
+  fst (hosvd sequential modes (smul c x)) = fst (hosvd sequential modes x) /\
+  snd (hosvd sequential modes (smul c x)) = smul c (snd (hosvd sequential modes x)).
+Proof.
+  intros [|] modes c x Hc; unfold hosvd, hosvd_nonseq.
+  - rewrite hosvd_seq_scale by exact Hc. split; reflexivity.
+  - rewrite hosvd_nonseq_from_scale by exact Hc. split; reflexivity.
+Qed.
+
+(* ||cX - T'||^2 = c^2 ||X - T||^2, so the relative error ||X - T||^2 / ||X||^2 is unchanged (cross-multiplied) *)
+Theorem hosvd_relerr_scale : forall (sequential : bool) (modes : list nat) (c : R) (x : E), 0 < c ->
+  let r := snd (hosvd sequential modes x) in
+  let r' := snd (hosvd sequential modes (smul c x)) in
+  nrm (sub (smul c x) r') = c * c * nrm (sub x r) /\
+  nrm (sub (smul c x) r') * nrm x = nrm (sub x r) * nrm (smul c x).
+Proof.
+  intros sq modes c x Hc r r'. unfold r'. destruct (hosvd_scale sq modes c x Hc) as [_ ->]. apply relerr_scale.
+Qed.
+
+(* ---------------------------------------------------------------------------------------- *)
+(* C2. tucker_als                                                                             *)
+(* ---------------------------------------------------------------------------------------- *)
+(* Fs = the list U of factor matrices; A U x = x x_1 U_1^T ... x_d U_d^T (the core for factors U);
+   upd n U x = U with U[n] := nvecs_n(x x_{m<>n} U_m^T, rank[n]).  Contract: the leading eigenvectors do not
+   change when x is scaled by c > 0; A U is linear *)
+Variables (Fs F : Type) (A : Fs -> E -> F) (smulF : R -> F -> F) (innerF : F -> F -> R).
+Variable upd : nat -> Fs -> E -> Fs.
+Hypothesis upd_scale : forall n U c x, 0 < c -> upd n U (smul c x) = upd n U x.
+Hypothesis A_lin : forall U c x, 0 < c -> A U (smul c x) = smulF c (A U x).
+Hypothesis innerF_smul : forall c a, innerF (smulF c a) (smulF c a) = c * c * innerF a a.
+
+(* for n in dimorder: U[n] = ... *)
+Definition sweep (dimorder : list nat) (U : Fs) (x : E) : Fs := fold_left (fun U n => upd n U x) dimorder U.
+Fixpoint sweeps (dimorder : list nat) (k : nat) (U : Fs) (x : E) : Fs :=
+  match k with O => U | S k' => sweeps dimorder k' (sweep dimorder U x) x end.
+Definition als_core (dimorder : list nat) (k : nat) (U : Fs) (x : E) : F := A (sweeps dimorder k U x) x.
+(* normX**2 - core.norm()**2 *)
+Definition resid2 (x : E) (g : F) : R := nrm x - innerF g g.
+(* fit = 1 - sqrt(abs(normX**2 - core.norm()**2)) / normX *)
+Definition fit_of (x : E) (g : F) : R := 1 - sqrt (Rabs (resid2 x g)) / sqrt (nrm x).
+
+Lemma sweep_scale dimorder : forall U c x, 0 < c -> sweep dimorder U (smul c x) = sweep dimorder U x.
+Proof.
+  unfold sweep. induction dimorder as [|n ms IH]; intros U c x Hc; cbn [fold_left]; [reflexivity|].
+  rewrite upd_scale by exact Hc. now apply IH.
+Qed.
+
+Lemma sweeps_scale dimorder k : forall U c x, 0 < c -> sweeps dimorder k U (smul c x) = sweeps dimorder k U x.
+Proof.
+  induction k as [|k IH]; intros U c x Hc; cbn [sweeps]; [reflexivity|].
+  rewrite sweep_scale by exact Hc. now apply IH.
+Qed.
+
+Lemma resid2_scale c x g : resid2 (smul c x) (smulF c g) = c * c * resid2 x g.
+Proof. unfold resid2. rewrite nrm2_smul, innerF_smul. ring. Qed.
+
+Lemma fit_of_scale c x g : 0 < c -> 0 < nrm x -> fit_of (smul c x) (smulF c g) = fit_of x g.
+Proof.
+  intros Hc Hx. unfold fit_of, resid2.
+  apply (tucker_fit_scale c (nrm x) (innerF g g)); auto using nrm2_smul, innerF_smul.
+Qed.
+
+(* after any number of sweeps from the same start: identical factors, core scaled by c, normX^2 - ||core||^2 scaled
+   by c^2 (relative residual unchanged, cross-multiplied), reported fit unchanged *)
+Theorem tucker_als_scale : forall (dimorder : list nat) (k : nat) (U0 : Fs) (c : R) (x : E), 0 < c ->
+  let g := als_core dimorder k U0 x in
+  let g' := als_core dimorder k U0 (smul c x) in
+  sweeps dimorder k U0 (smul c x) = sweeps dimorder k U0 x /\
+  g' = smulF c g /\
+  resid2 (smul c x) g' = c * c * resid2 x g /\
+  resid2 (smul c x) g' * nrm x = resid2 x g * nrm (smul c x) /\
+  (0 < nrm x -> fit_of (smul c x) g' = fit_of x g).
+Proof.
+  intros dimorder k U0 c x Hc g g'.
+  assert (Hg : g' = smulF c g).
+  { unfold g', g, als_core. rewrite sweeps_scale, A_lin by exact Hc. reflexivity. }
+  split; [now apply sweeps_scale|]. split; [exact Hg|]. rewrite Hg, resid2_scale, nrm2_smul.
+  split; [reflexivity|]. split; [ring|]. intros Hx. now apply fit_of_scale.
+Qed.
+
+(* the full Tucker model Syn U g (= core x_1 U_1 ... x_d U_d, linear in the core: den_t_scale_core) for the scaled data is
+   c times the model for the original data *)
+Variable Syn : Fs -> F -> E.
+Hypothesis Syn_lin : forall U c g, 0 < c -> Syn U (smulF c g) = smul c (Syn U g).
+Theorem tucker_als_model_scale : forall (dimorder : list nat) (k : nat) (U0 : Fs) (c : R) (x : E), 0 < c ->
+  let T := Syn (sweeps dimorder k U0 x) (als_core dimorder k U0 x) in
+  let T' := Syn (sweeps dimorder k U0 (smul c x)) (als_core dimorder k U0 (smul c x)) in
+  T' = smul c T /\
+  nrm (sub (smul c x) T') = c * c * nrm (sub x T) /\
+  nrm (sub (smul c x) T') * nrm x = nrm (sub x T) * nrm (smul c x).
+Proof.
+  intros dimorder k U0 c x Hc T T'.
+  assert (HT : T' = smul c T).
+  { unfold T', T. destruct (tucker_als_scale dimorder k U0 c x Hc) as (-> & -> & _). now apply Syn_lin. }
+  split; [exact HT|]. rewrite HT. apply relerr_scale.
+Qed.
+
+(* the whole main loop including the convergence test (fitchange < stoptol: break): state = (U, fit, iterations done) *)
+Variable stoptol : R.
+Fixpoint als_loop (dimorder : list nat) (maxiters : nat) (U : Fs) (fitold : R) (x : E) : Fs * R * nat :=
+  match maxiters with
+  | O => (U, fitold, O)
+  | S k =>
+      let U' := sweep dimorder U x in
+      let fit := fit_of x (A U' x) in
+      if Rltb (Rabs (fitold - fit)) stoptol then (U', fit, 1%nat)
+      else let r := als_loop dimorder k U' fit x in (fst (fst r), snd (fst r), S (snd r))
+  end.
+
+Theorem tucker_als_loop_scale : forall (dimorder : list nat) (maxiters : nat) (U : Fs) (fit0 c : R) (x : E),
+  0 < c -> 0 < nrm x ->
+  als_loop dimorder maxiters U fit0 (smul c x) = als_loop dimorder maxiters U fit0 x /\
+  A (fst (fst (als_loop dimorder maxiters U fit0 (smul c x)))) (smul c x) =
+    smulF c (A (fst (fst (als_loop dimorder maxiters U fit0 x))) x).
+Proof.
+  intros dimorder maxiters U fit0 c x Hc Hx.
+  assert (H : als_loop dimorder maxiters U fit0 (smul c x) = als_loop dimorder maxiters U fit0 x).
+  { revert U fit0. induction maxiters as [|k IH]; intros U fit0; cbn [als_loop]; [reflexivity|].
+    rewrite sweep_scale, A_lin, fit_of_scale by assumption.
+    destruct (Rltb _ stoptol); [reflexivity|]. now rewrite IH. }
+  split; [exact H|]. rewrite H. now apply A_lin.
+Qed.
+
+End Equivariance.
+
+(* ---------------------------------------------------------------------------------------- *)
+(* non-vacuity of C1 / C2: R^3, coordinate projectors, data-dependent (scale-invariant) choices *)
+(* ---------------------------------------------------------------------------------------- *)
+Definition smul3 (c : R) (a : v3) : v3 := let '(a1, a2, a3) := a in (c * a1, c * a2, c * a3).
+
+Lemma inner3_smul c a b : inner3 (smul3 c a) b = c * inner3 a b.
+Proof. destruct a as [[a1 a2] a3], b as [[b1 b2] b3]. cbn. ring. Qed.
+Lemma sub3_smul c a b : sub3 (smul3 c a) (smul3 c b) = smul3 c (sub3 a b).
+Proof. destruct a as [[a1 a2] a3], b as [[b1 b2] b3]. cbn. f_equal; [f_equal|]; ring. Qed.
+Lemma inner3_smul2 c a : inner3 (smul3 c a) (smul3 c a) = c * c * inner3 a a.
+Proof. destruct a as [[a1 a2] a3]. cbn. ring. Qed.
+
+(* "which coordinate carries less energy" — a choice that depends on the data but not on its scale *)
+Definition weak3 (y : v3) : bool := let '(_, y2, y3) := y in Rltb (y3 * y3) (y2 * y2).
+Lemma weak3_scale c y : 0 < c -> weak3 (smul3 c y) = weak3 y.
+Proof.
+  intros Hc. destruct y as [[y1 y2] y3]. cbn [weak3 smul3].
+  replace (c * y3 * (c * y3)) with ((c * c) * (y3 * y3)) by ring.
+  replace (c * y2 * (c * y2)) with ((c * c) * (y2 * y2)) by ring.
+  apply Rltb_scale. nra.
+Qed.
+
+(* mode 0: drop the weaker of coordinates 2, 3 of the CURRENT vector; other modes: drop coordinate 2 *)
+Definition choose3 (n : nat) (y : v3) : v3 -> v3 :=
+  match n with O => if weak3 y then drop3 else drop2 | S _ => drop2 end.
+Lemma choose3_scale n c x : 0 < c -> choose3 n (smul3 c x) = choose3 n x.
+Proof. intros Hc. destruct n; [|reflexivity]. cbn [choose3]. now rewrite weak3_scale. Qed.
+Lemma drop3_homog c x : drop3 (smul3 c x) = smul3 c (drop3 x).
+Proof. destruct x as [[x1 x2] x3]. cbn. f_equal. ring. Qed.
+Lemma drop2_homog c x : drop2 (smul3 c x) = smul3 c (drop2 x).
+Proof. destruct x as [[x1 x2] x3]. cbn. f_equal. f_equal. ring. Qed.
+Lemma choose3_homog n y c x : 0 < c -> choose3 n y (smul3 c x) = smul3 c (choose3 n y x).
+Proof.
+  intros _. destruct n; cbn [choose3]; [destruct (weak3 y)|]; auto using drop3_homog, drop2_homog.
+Qed.
+
+Lemma weak3_132 : weak3 (1, 3, 2) = true.
+Proof. cbn [weak3]. apply Rltb_true. lra. Qed.
+
+Lemma hosvd3_base : forall sequential,
+  hosvd v3 choose3 sequential [0; 1]%nat (1, 3, 2) = ([drop3; drop2], (1, 0, 0)).
+Proof.
+  intros [|]; cbv [hosvd hosvd_nonseq hosvd_seq hosvd_nonseq_from choose3 fst snd]; rewrite !weak3_132; reflexivity.
+Qed.
+
+(* data (1,3,2) scaled by 2: same projectors [drop3; drop2], approximation 2 * (1,0,0), squared error 4 * 13,
+   relative error unchanged — for sequential = True and False *)
+Example hosvd_scale_example : forall sequential,
+  let x := (1, 3, 2) in
+  let r' := hosvd v3 choose3 sequential [0; 1]%nat (smul3 2 x) in
+  fst r' = [drop3; drop2] /\ snd r' = smul3 2 (1, 0, 0) /\
+  nrm2 v3 inner3 (sub3 (smul3 2 x) (snd r')) = 2 * 2 * 13 /\
+  nrm2 v3 inner3 (sub3 (smul3 2 x) (snd r')) * nrm2 v3 inner3 x = 13 * nrm2 v3 inner3 (smul3 2 x).
+Proof.
+  intros sq x r'. assert (H2 : 0 < 2) by lra.
+  destruct (hosvd_scale v3 smul3 choose3 choose3_scale choose3_homog sq [0; 1]%nat 2 x H2) as [Hf Hs].
+  pose proof (hosvd_relerr_scale v3 sub3 inner3 smul3 inner3_sym inner3_smul sub3_smul choose3 choose3_scale
+                choose3_homog sq [0; 1]%nat 2 x H2) as [He Hr].
+  fold r' in Hf, Hs, He, Hr. unfold x in *. rewrite hosvd3_base in *. cbn [fst snd] in *.
+  assert (H13 : nrm2 v3 inner3 (sub3 (1, 3, 2) (1, 0, 0)) = 13) by (unfold nrm2; cbn; lra).
+  rewrite H13 in *. auto.
+Qed.
+
+(* C2 on R^3: factor state = which coordinate projector (0: drop3, 1: drop2); mode 0 re-chooses it from the data *)
+Definition A3 (U : nat) (x : v3) : v3 := match U with O => drop3 x | S _ => drop2 x end.
+Definition upd3 (n U : nat) (x : v3) : nat := match n with O => if weak3 x then 0%nat else 1%nat | S _ => U end.
+Lemma upd3_scale n U c x : 0 < c -> upd3 n U (smul3 c x) = upd3 n U x.
+Proof. intros Hc. destruct n; [|reflexivity]. cbn [upd3]. now rewrite weak3_scale. Qed.
+Lemma A3_lin U c x : 0 < c -> A3 U (smul3 c x) = smul3 c (A3 U x).
+Proof. intros _. destruct U; cbn [A3]; auto using drop3_homog, drop2_homog. Qed.
+
+Lemma sweeps3_base : sweeps v3 nat upd3 [0; 1]%nat 2 1%nat (1, 3, 2) = 0%nat.
+Proof. cbv [sweeps sweep fold_left upd3]. rewrite !weak3_132. reflexivity. Qed.
+
+(* start U0 = 1 (drop2); two sweeps over dimorder [0;1] on (1,3,2) and on 2*(1,3,2): same state 0 (drop3), core
+   2*(1,3,0), normX^2 - ||core||^2 = 4 * 4, same fit *)
+Example tucker_als_scale_example :
+  let x := (1, 3, 2) in
+  let g' := als_core v3 nat v3 A3 upd3 [0; 1]%nat 2 1%nat (smul3 2 x) in
+  sweeps v3 nat upd3 [0; 1]%nat 2 1%nat (smul3 2 x) = 0%nat /\
+  g' = smul3 2 (1, 3, 0) /\
+  resid2 v3 inner3 v3 inner3 (smul3 2 x) g' = 2 * 2 * 4 /\
+  fit_of v3 inner3 v3 inner3 (smul3 2 x) g' = 1 - sqrt (Rabs 4) / sqrt 14.
+Proof.
+  intros x g'. assert (H2 : 0 < 2) by lra.
+  pose proof (tucker_als_scale v3 inner3 smul3 inner3_sym inner3_smul nat v3 A3 smul3 inner3 upd3 upd3_scale A3_lin
+                inner3_smul2 [0; 1]%nat 2 1%nat 2 x H2) as (Hs & Hg & Hr & _ & Hf).
+  fold g' in Hg, Hr, Hf. unfold als_core, x in *. rewrite sweeps3_base in *. cbn [A3 drop3] in *.
+  assert (Hres : resid2 v3 inner3 v3 inner3 (1, 3, 2) (1, 3, 0) = 4) by (unfold resid2, nrm2; cbn; lra).
+  assert (Hn : nrm2 v3 inner3 (1, 3, 2) = 14) by (unfold nrm2; cbn; lra).
+  rewrite Hres in *. split; [exact Hs|]. split; [exact Hg|]. split; [exact Hr|].
+  rewrite Hf by (rewrite Hn; lra). unfold fit_of. now rewrite Hres, Hn.
+Qed.
+
+(* the loop with the convergence test, stoptol = 1/10, start fit 0, at most 5 iterations *)
+Example tucker_als_loop_scale_example :
+  als_loop v3 inner3 nat v3 A3 inner3 upd3 (1 / 10) [0; 1]%nat 5 1%nat 0 (smul3 2 (1, 3, 2)) =
+  als_loop v3 inner3 nat v3 A3 inner3 upd3 (1 / 10) [0; 1]%nat 5 1%nat 0 (1, 3, 2).
+Proof.
+  apply (tucker_als_loop_scale v3 inner3 smul3 inner3_sym inner3_smul nat v3 A3 smul3 inner3 upd3 upd3_scale A3_lin
+           inner3_smul2); [lra|]. unfold nrm2. cbn. lra.
+Qed.
+
+(* the full-model statement with synthesis = identity embedding of the core space v3 into v3 *)
+Example tucker_als_model_scale_example :
+  let Syn := (fun (_ : nat) (g : v3) => g) in
+  Syn (sweeps v3 nat upd3 [0; 1]%nat 2 1%nat (smul3 2 (1, 3, 2))) (als_core v3 nat v3 A3 upd3 [0; 1]%nat 2 1%nat (smul3 2 (1, 3, 2)))
+  = smul3 2 (1, 3, 0).
+Proof.
+  intros Syn. assert (H2 : 0 < 2) by lra.
+  destruct (tucker_als_model_scale v3 sub3 inner3 smul3 inner3_sym inner3_smul sub3_smul nat v3 A3 smul3 inner3 upd3
+              upd3_scale A3_lin inner3_smul2 Syn (fun _ _ _ _ => eq_refl) [0; 1]%nat 2 1%nat 2 (1, 3, 2) H2) as [H _].
+  rewrite H. unfold als_core. rewrite sweeps3_base. reflexivity.
+Qed.
+
+Print Assumptions hosvd_rank_scale.
+Print Assumptions hosvd_last_above_scale.
+Print Assumptions hosvd_ncols_scale.
+Print Assumptions hosvd_keep_cols_scale.
+Print Assumptions hosvd_rank_scale_data.
+Print Assumptions ttm_den_scale.
+Print Assumptions gram_den_scale.
+Print Assumptions den_t_scale_core.
+Print Assumptions sumsq_scale.
+Print Assumptions ttm_scale.
+Print Assumptions tucker_fit_scale.
+Print Assumptions hosvd_applyPs.
+Print Assumptions hosvd_scale.
+Print Assumptions hosvd_relerr_scale.
+Print Assumptions tucker_als_scale.
+Print Assumptions tucker_als_model_scale.
+Print Assumptions tucker_als_loop_scale.
